@@ -289,6 +289,40 @@ func c02Readers(fault int64) []c02Reader {
 		{name: "v2.OpenReader(file).Inspect(true)", hashes: true, sparse: true, run: inspectFile(true)},
 		{name: "v2.OpenReader(file).Inspect(false)", sparse: true, run: inspectFile(false)},
 		{name: "v2.Reader.Inspect(false)", run: inspect(false)},
+		// the caller's own bufio.Reader, used for one archive after another, while other readers come and go
+		// (the package pools its buffered readers: the caller's must never end up among them)
+		{name: "root.CarReader.Next over the caller's bufio.Reader, reused", v1only: true, hashes: true, returns: true, sparse: true, run: func(in []byte) ([]refcar.Block, bool, error) {
+			decoy := c02Decoy()
+			br := bufio.NewReader(bytes.NewReader(decoy))
+			if first, err := carv1.NewCarReaderWithOptions(br, carv1.WithErrorOnEmptyRoots(false)); err == nil {
+				for {
+					if _, err := first.Next(); err != nil {
+						break
+					}
+				}
+			}
+			br.Reset(base(in))
+			cr, err := carv1.NewCarReaderWithOptions(br, carv1.WithErrorOnEmptyRoots(false))
+			if err != nil {
+				return nil, false, err
+			}
+			// another reader of the package starts on another source
+			other, oerr := carv1.NewCarReaderWithOptions(bytes.NewReader(decoy), carv1.WithErrorOnEmptyRoots(false))
+			if oerr == nil {
+				_, _ = other.Next()
+			}
+			var got []refcar.Block
+			for {
+				b, err := cr.Next()
+				if err == io.EOF {
+					return got, true, nil
+				}
+				if err != nil {
+					return got, false, err
+				}
+				got = append(got, refcar.Block{Cid: b.Cid().Bytes(), Data: b.RawData()})
+			}
+		}},
 		{name: "root.CarReader.Next", v1only: true, hashes: true, returns: true, run: func(in []byte) ([]refcar.Block, bool, error) {
 			cr, err := carv1.NewCarReaderWithOptions(base(in), carv1.WithErrorOnEmptyRoots(false))
 			if err != nil {
@@ -442,6 +476,16 @@ func (l *c02Layout) cutPhase(j int) string {
 		return "in-section-cid"
 	}
 	return "in-" + reg
+}
+
+// c02Decoy is a small valid CARv1 that is none of the archives under test.
+func c02Decoy() []byte {
+	var blks []refcar.Block
+	for _, d := range []string{"decoy block one", "decoy block two", "decoy block three"} {
+		h, _ := refcar.Hash(0x12, []byte(d))
+		blks = append(blks, refcar.Block{Cid: refcar.MakeCidV1(0x55, 0x12, h), Data: []byte(d)})
+	}
+	return refcar.EncodeV1([][]byte{blks[0].Cid}, false, blks)
 }
 
 func runC02(t *mon.T, raw json.RawMessage) {
@@ -761,7 +805,7 @@ func init() {
 	Register(&mon.Check{
 		ID:          "C02",
 		Level:       "exploration",
-		Rule:        "cases = (seeded small valid archive, container kind, mutation family); family cuts = EVERY proper prefix of the archive, family flips = every byte with one seeded bit (quick) or all 8 bits (thorough), family random = 200 random mutations (hash oracle only); family ioerr = the source itself fails with a non-EOF error on any access at or beyond offset j, for EVERY j inside the payload: readers that return or validate block bytes must not end cleanly and must deliver only complete, intact blocks; plus archives holding one section of 1 MiB+4 KiB / 2 MiB-1 / 2 MiB / 3 MiB (3- and 4-byte length varints) with every offset outside that block and ~30 sampled offsets inside it; each mutated input goes through 26 scanning readers (three of them with ZeroLengthSectionAsEOF on) (v2 BlockReader.Next on 3 source kinds, SkipNext on 2, Inspect(true|false), root CarReader, root LoadCar slow+batch); events_observed counts reader executions; non-trivial = every case (each holds ≥1 section)",
+		Rule:        "cases = (seeded small valid archive, container kind, mutation family); family cuts = EVERY proper prefix of the archive, family flips = every byte with one seeded bit (quick) or all 8 bits (thorough), family random = 200 random mutations (hash oracle only); family ioerr = the source itself fails with a non-EOF error on any access at or beyond offset j, for EVERY j inside the payload: readers that return or validate block bytes must not end cleanly and must deliver only complete, intact blocks; plus archives holding one section of 1 MiB+4 KiB / 2 MiB-1 / 2 MiB / 3 MiB (3- and 4-byte length varints) with every offset outside that block and ~30 sampled offsets inside it; each mutated input goes through 27 scanning readers (three of them with ZeroLengthSectionAsEOF on) (v2 BlockReader.Next on 3 source kinds, SkipNext on 2, Inspect(true|false), root CarReader, root LoadCar slow+batch); events_observed counts reader executions; non-trivial = every case (each holds ≥1 section)",
 		Assumptions: []string{"reference section table (refcar) decides where a cut/flip lands", "hashes recomputed with Go stdlib/x-crypto", "cuts at a section boundary and cuts after the end of a CARv2 payload are exempt from the truncation clause, as the property states"},
 		Gen:         genC02,
 		Run:         runC02,
